@@ -55,7 +55,8 @@ type DNS struct {
 }
 
 type Query struct {
-	URL string `json:"url"`
+	URL  string `json:"url"`
+	Host string `json:"host,omitempty"` // the explicit host argument ("" = taken from the URL, as forwarder itself calls it)
 }
 
 type C14Case struct {
@@ -170,7 +171,21 @@ func genC14(t *rapid.T) C14Case {
 	n := rapid.IntRange(2, 8).Draw(t, "nq")
 	for i := 0; i < n; i++ {
 		scheme := rapid.SampledFrom([]string{"http", "https", "ftp"}).Draw(t, "scheme")
-		c.Queries = append(c.Queries, Query{URL: scheme + "://" + rapid.SampledFrom(c14Hosts).Draw(t, "qhost") + rapid.SampledFrom(c14Paths).Draw(t, "qpath")})
+		q := Query{URL: scheme + "://" + rapid.SampledFrom(c14Hosts).Draw(t, "qhost") + rapid.SampledFrom(c14Paths).Draw(t, "qpath")}
+		switch rapid.IntRange(0, 5).Draw(t, "qhostarg") {
+		case 0: // an explicit host argument, not necessarily the URL's
+			q.Host = strings.Trim(rapid.SampledFrom(c14Hosts).Draw(t, "qhostexplicit"), "[]")
+		case 1: // the URL of an earlier query again, with another host argument
+			if i > 0 {
+				q.URL = c.Queries[rapid.IntRange(0, i-1).Draw(t, "qrepeat")].URL
+				q.Host = strings.Trim(rapid.SampledFrom(c14Hosts).Draw(t, "qhostrepeat"), "[]")
+			}
+		case 2: // an earlier query once more, unchanged
+			if i > 0 {
+				q = c.Queries[rapid.IntRange(0, i-1).Draw(t, "qsame")]
+			}
+		}
+		c.Queries = append(c.Queries, q)
 	}
 	c.Workers = rapid.SampledFrom([]int{1, 2, 4, 8, 32}).Draw(t, "workers")
 	return c
@@ -528,19 +543,22 @@ func runC14(c C14Case) (fails []vstat.Failure) {
 			continue
 		}
 		r := refCtx{c: c, url: u.String(), host: u.Hostname()}
+		if q.Host != "" {
+			r.host = q.Host
+		}
 		if r.outsideTree(c.Tree) {
 			skip[i] = true
 			st.Class("query-outside-agreement-domain")
 			continue
 		}
 		want[i] = r.walk(c.Tree)
-		got, err := single.FindProxyForURL(u, "")
+		got, err := single.FindProxyForURL(u, q.Host)
 		if err != nil {
 			fails = append(fails, vstat.Failf(c14Key(c, "eval-error"), "FindProxyForURL(%q) failed: %v\n%s", q.URL, err, c.Script()))
 			continue
 		}
 		if got != want[i] {
-			fails = append(fails, vstat.Failf(c14Key(c, "wrong-answer"), "FindProxyForURL(%q) = %q, the reference evaluation of the same tree gives %q (dns %v, myip %v/%v)\n%s", q.URL, got, want[i], c.DNS, c.MyIP, c.MyIPEx, c.Script()))
+			fails = append(fails, vstat.Failf(c14Key(c, "wrong-answer"), "FindProxyForURL(%q, %q) [query %d of %d on this resolver] = %q, the reference evaluation of the same tree gives %q (dns %v, myip %v/%v)\n%s", q.URL, q.Host, i+1, len(c.Queries), got, want[i], c.DNS, c.MyIP, c.MyIPEx, c.Script()))
 		}
 	}
 	if len(fails) > 0 {
@@ -559,7 +577,7 @@ func runC14(c C14Case) (fails []vstat.Failure) {
 					continue
 				}
 				u, _ := url.Parse(c.Queries[i].URL)
-				got, err := pool.FindProxyForURL(u, "")
+				got, err := pool.FindProxyForURL(u, c.Queries[i].Host)
 				if err != nil || got != want[i] {
 					mu.Lock()
 					fails = append(fails, vstat.Failf("C14:pool", "pool (worker %d of %d): FindProxyForURL(%q) = %q, %v; sequential answer %q", w, c.Workers, c.Queries[i].URL, got, err, want[i]))
@@ -612,6 +630,17 @@ func classifyC14(c C14Case) (bool, string, []string) {
 		cls = append(cls, "entry-Ex")
 	}
 	cls = append(cls, fmt.Sprintf("workers=%d", c.Workers))
+	seenURL := map[string]string{}
+	for _, q := range c.Queries {
+		if q.Host != "" {
+			cls = append(cls, "explicit-host-argument")
+		}
+		if h, ok := seenURL[q.URL]; ok && h != q.Host {
+			cls = append(cls, "same-url-other-host")
+		}
+		seenURL[q.URL] = q.Host
+	}
+	cls = dedupS(cls)
 	sort.Strings(cls)
 	return len(hs) >= 2 && len(leaves) >= 2, c.Script() + fmt.Sprint(c.Queries, c.DNS, c.MyIP), cls
 }
